@@ -897,7 +897,7 @@ func Run(c *vh.Ctx) {
 		}
 	}
 	// seeded longer / mixed histories
-	for i := 0; i < c.N(3000, 200000) && !r.stopped; i++ {
+	for i := 0; i < c.N(2000, 200000) && !r.stopped; i++ {
 		r.add(randomCase(c.Rand, c.Rand.Range(4, 9)))
 	}
 	r.flush()
